@@ -261,6 +261,15 @@ def compiled_binding(chk, tier, seed):
     progs = []
     for k in range(8 if tier == 'quick' else 40):
         decls, cfg, _ = runtime_checks.gen_model(rng, want_mc=(k % 2 == 0), shadow=(k % 4 != 3), clash=(k % 4 == 3))
+        if k % 4 == 1:
+            # an injected requires port declared FIRST, of another interface than the port that follows it: injected
+            # ports are not exposed, the ports after it must keep their own interface types
+            itfs = [d for d in decls if d['kind'] == 'interface']
+            comp = decls[-1]
+            first = comp['ports'][0]
+            other = next((i for i in itfs if i['fqn'][-1:] != first['type'][-1:] and i['fqn'] != ['A', 'B', 'A', first['type'][-1]]), None)
+            if other is not None:
+                comp['ports'].insert(0, {'name': 'inj0', 'type': list(other['fqn']), 'dir': 'requires', 'inj': True})
         prog = cxx.Program(decls, cfg)
         try:
             if prog.generate():
